@@ -469,7 +469,7 @@ def variations(inp, rng, idx):
         other_last = dict(b, mains=mains + inp["other"])
         out.append(("order", other_last, other_first))
     if inp.get("shadow"):
-        out += shadow_pairs(b)
+        out.append(shadow_pairs(b)[idx % 2])
     return out
 
 
